@@ -124,22 +124,33 @@ fn b64_exhaustive(acc: &mut Acc, which: usize) {
     acc.sample(|| json!({"enumerated": n, "example_tails": ["", "A", "AA", "AB", "AA=", "A+", "AAA", "AAB", "AAAA", "AA A"]}));
 }
 
-/// encode direction: every byte-sequence length 0..=300
+/// encode direction: every byte-sequence length 0..=300, then every length up to 1200 (quick) /
+/// 9000 (thorough) and the lengths around every multiple of 1024 up to 128 KiB (buffer and
+/// chunk sizes of an encoder live there)
 fn b64_encode_all(acc: &mut Acc) {
-    for len in 0..=300usize {
+    let dense = acc.tier.pick(1200usize, 9000);
+    let mut lens: Vec<usize> = (0..=dense).collect();
+    for k in 1..=128usize {
+        for d in [-2i64, -1, 0, 1, 2, 3] {
+            lens.push((k as i64 * 1024 + d) as usize);
+        }
+    }
+    lens.sort();
+    lens.dedup();
+    for len in lens {
         for (ci, bytes) in [crate::rng::det_bytes(acc.seed ^ len as u64, 0xe4c, len), vec![0u8; len], vec![0xff; len]].into_iter().enumerate() {
             acc.eval();
             let s = lib_b64_encode(&bytes);
             let ok = s == b64_encode(&bytes) && lib_b64_decode(&s).as_deref() == Some(&bytes[..]);
             if !ok {
-                acc.fail(Fail::new("C09/base64/encode-roundtrip", format!("{len} bytes (content {ci}) encode to {s:?}; decode(encode(b)) != b or differs from base64url")), json!({"len": len, "content": ci}));
+                acc.fail(Fail::new("C09/base64/encode-roundtrip", format!("{len} bytes (content {ci}) encode to {:?}... ({} characters); decode(encode(b)) != b or differs from base64url", &s[..s.len().min(60)], s.len())), json!({"len": len, "content": ci}));
             }
             if len % 3 != 0 {
                 acc.nt((len * 3 + ci) as u64);
             }
         }
     }
-    acc.exhaustive.push("encode/decode: every byte-sequence length 0..=300 x 3 contents".into());
+    acc.exhaustive.push(format!("encode/decode: every byte-sequence length 0..={dense} and k*1024-2..k*1024+3 for k <= 128, x 3 contents"));
 }
 
 // ---------------------------------------------------------------------------
@@ -413,7 +424,7 @@ pub fn def() -> PropertyDef {
     PropertyDef {
         id: "C09",
         level: "exploration",
-        rule: "(1) exhaustive: every ASCII string of length <= 3 and every length-4 string over the 64-symbol alphabet plus 10 (quick) / 16 (thorough) hostile symbols ('=', '+', '/', '.', whitespace, multi-byte UTF-8, neighbours of the alphabet ranges), as the final base64 block after 0, 1 and 2 full blocks, decoded through KeyText: accept iff the strict reference decoder accepts (unpadded URL-safe alphabet, length != 1 mod 4, canonical trailing bits), same bytes, re-encodes to the input; (2) every byte-sequence length 0..=300 encodes to the reference text and decodes back; (3) proptest over every FromStr/Display/serde triple of paseto-core at every back end (tokens, key texts, typed keys, ids, PIE, PBKW, sealed keys): canonical strings with 0-3 edits (substitute / insert / delete / append suffix / duplicate segment / swap header / truncate over alphabet, padding, standard-alphabet, whitespace, multi-byte characters) and arbitrary strings: accept iff the strict grammar accepts (exact header, canonical segments, no extra segment; ids exactly 33 bytes), accepted strings re-serialise identically (tokens modulo one trailing '.'), serde serialises to exactly the Display string and deserialises exactly the strings FromStr accepts. Non-trivial iff accepted, or one edit away from a canonical string",
+        rule: "(1) exhaustive: every ASCII string of length <= 3 and every length-4 string over the 64-symbol alphabet plus 10 (quick) / 16 (thorough) hostile symbols ('=', '+', '/', '.', whitespace, multi-byte UTF-8, neighbours of the alphabet ranges), as the final base64 block after 0, 1 and 2 full blocks, decoded through KeyText: accept iff the strict reference decoder accepts (unpadded URL-safe alphabet, length != 1 mod 4, canonical trailing bits), same bytes, re-encodes to the input; (2) every byte-sequence length 0..=1200 (thorough 9000) and the lengths around every multiple of 1024 up to 128 KiB encode to the reference text and decode back; (3) proptest over every FromStr/Display/serde triple of paseto-core at every back end (tokens, key texts, typed keys, ids, PIE, PBKW, sealed keys): canonical strings with 0-3 edits (substitute / insert / delete / append suffix / duplicate segment / swap header / truncate over alphabet, padding, standard-alphabet, whitespace, multi-byte characters) and arbitrary strings: accept iff the strict grammar accepts (exact header, canonical segments, no extra segment; ids exactly 33 bytes), accepted strings re-serialise identically (tokens modulo one trailing '.'), serde serialises to exactly the Display string and deserialises exactly the strings FromStr accepts. Non-trivial iff accepted, or one edit away from a canonical string",
         assumptions: vec!["v1 typed asymmetric keys may be given as PEM inside the base64 body and canonicalise to DER (excluded from the re-serialise-identically clause only)"],
         subs,
     }
